@@ -174,7 +174,10 @@ func runCheck(o *CheckOpts) int {
 			defer func() { <-ssem }()
 			qt := ob.W.queryText(ob, false)
 			var r SolveResult
-			if ob.Cover {
+			if ob.Probe {
+				// must-fail probe: one short attempt with all solvers; only "unsat" is meaningful
+				r = solve(qt, tmp, ob.Name+".probe", 2, o.Seed, true)
+			} else if ob.Cover {
 				// vacuity covers: a quick single-solver attempt; only "unsat" is meaningful
 				file := filepath.Join(tmp, sanitizeFile(ob.Name)+".smt2")
 				os.WriteFile(file, []byte(qt), 0o644)
@@ -285,8 +288,17 @@ func runCheck(o *CheckOpts) int {
 		return nil
 	}
 	knownCount := 0
+	probes := 0
+	var probeFail []string
 	for _, r := range ores {
 		solverSeconds += r.R.Seconds
+		if r.O.Probe {
+			probes++
+			if r.R.Status == "unsat" {
+				probeFail = append(probeFail, r.O.Name)
+			}
+			continue
+		}
 		if r.O.Cover {
 			covers++
 			if r.R.Status == "unsat" {
@@ -391,6 +403,18 @@ func runCheck(o *CheckOpts) int {
 		}
 		fmt.Printf("VIOLATION property=%s replay=%s obligation=%s status=%s%s\n", o.Prop, path, name, status, suffix)
 	}
+	{
+		var files []string
+		for f := range prog.DroppedLemmas {
+			files = append(files, f)
+		}
+		sort.Strings(files)
+		for _, f := range files {
+			// the oracles that still compile are tried for a failing input
+			ob := &Obligation{Name: "lemmas/" + filepath.Base(f) + "#compiles", Kind: "harness", Func: "*"}
+			emit(ob, ob.Name, "harness", "the lemma file compiles against the current tree (every function it names exists)", f, "does not compile", "go/types", prog.DroppedLemmas[f], nil)
+		}
+	}
 	for _, m := range prog.missingTargets(o.Prop) {
 		if o.Only != "" {
 			continue
@@ -411,6 +435,10 @@ func runCheck(o *CheckOpts) int {
 	}
 	if total == 0 && o.Only == "" {
 		emit(nil, "no-obligations", "vacuity", "at least one obligation generated", "", "no obligations", "", "", nil)
+	}
+	probesForEvidence = probes
+	for _, pf := range probeFail {
+		emit(nil, pf, "vacuity", "the assumptions on the path to this return are consistent (false is not provable there)", "", "false is provable: assumptions contradictory, everything proved at this return is vacuous", "", "", nil)
 	}
 	for _, cf := range coverFail {
 		notes = append(notes, "vacuity warning: cover "+cf+" is unsatisfiable")
@@ -507,6 +535,9 @@ func truncate(s string, n int) string {
 // the five slowest obligations of the run (stability watch), for the evidence file
 var slowestForEvidence []map[string]interface{}
 
+// number of must-fail probes (goal false at every return) run; a provable one is a violation
+var probesForEvidence int
+
 func writeEvidence(o *CheckOpts, pc *PropConfig, funcs []string, total, discharged, knownCount, violations, covers int, coverFail []string,
 	perSolver map[string]int, solverSeconds float64, samples []map[string]interface{}, assumptions map[string]bool, notes, outside []string, wall float64, extra []ExtraResult) {
 	level := pc.Level
@@ -540,6 +571,7 @@ func writeEvidence(o *CheckOpts, pc *PropConfig, funcs []string, total, discharg
 		"solver_seconds":           round3(solverSeconds),
 		"samples":                  samples,
 		"slowest_obligations":      slowestForEvidence,
+		"vacuity_probes":           probesForEvidence,
 		"vacuity_covers":           covers,
 		"vacuity_cover_failures":   coverFail,
 		"outside_subset":           outside,
